@@ -65,6 +65,9 @@ type pair struct {
 
 func producers(c *ukit.Spec, tier string) []pair {
 	out := []pair{{c.Clone(), "itself (second instance)"}}
+	if ukit.PureMapBased(c) {
+		out = append(out, pair{c.Clone(), rebuiltWhat})
+	}
 	for _, m := range ukit.Mutations(c) {
 		out = append(out, pair{m, "single-feature mutation"})
 	}
@@ -87,7 +90,26 @@ func buildSafe(s *ukit.Spec) (t schema.Type, ok bool) {
 	return t, !pan
 }
 
+const rebuiltWhat = "itself, rebuilt from its own description"
+
 func checkPair(c *ukit.Spec, cs schema.Type, pr pair, tier string, res *ux.Result) {
+	if pr.what == rebuiltWhat {
+		// the same schema as an engine holds it: described, and loaded from the description without constructors;
+		// compatible in both directions
+		var rebuilt schema.Type
+		if pan, _, _ := ukit.Call(func() {
+			l, err := ukit.LoadType(pr.p)
+			if err == nil {
+				rebuilt = l
+			}
+		}); pan || rebuilt == nil {
+			return // describing / loading is C09's business
+		}
+		link(c)
+		evaluatePair(c, cs, rebuilt, pr, "", res)
+		evaluatePair(c, rebuilt, cs, pr, " [the rebuilt schema as consumer, the built one as producer]", res)
+		return
+	}
 	ps, ok := buildSafe(pr.p)
 	if !ok {
 		return // the mutation produced a schema the constructors refuse
@@ -174,6 +196,9 @@ func evaluatePair(c *ukit.Spec, cs, ps schema.Type, pr pair, tag string, res *ux
 	}
 	if pr.what == "itself (second instance)" && !accepted && !degenerate(c) {
 		res.Add(fmt.Sprintf("schema of kind %s is not compatible with itself", c.Kind), desc+"\n"+msg, rp)
+	}
+	if pr.what == rebuiltWhat && !accepted && !degenerate(c) {
+		res.Add(fmt.Sprintf("schema of kind %s is not compatible with itself rebuilt from its own description", c.Kind), desc+"\n"+msg, rp)
 	}
 	if must, why := ukit.MustReject(c, pr.p); must && accepted && !degenerate(c) && !degenerate(pr.p) {
 		res.Add(fmt.Sprintf("incompatible producer accepted: %s", classOf(why)), desc+"\nmust be rejected: "+why, rp)
@@ -271,7 +296,7 @@ func main() {
 			checkPair(r.Consumer, cs, pair{r.Producer, r.What}, "quick", &res)
 			return res.Findings
 		},
-		Rule: "every spec A of U_2 as consumer x producers {a second instance of A; every single-feature mutation of A at any depth (range shifted out of reach, leaf kind, container kind, enum value, property added/removed, object id, discriminator, member removed, required flag, bound dropped, item type); a fixed set of ~70 unrelated specs incl. all nil/non-nil (min,max) combinations for int, float, string and map sizes with overlapping and disjoint ranges}; each ValidateCompatibility call runs under the sorted and under every single deviating map iteration order; oracle: a verdict is returned (panic / stack exhaustion / hang are violations), same verdict in every order, A accepts itself, and pairs in the reference MustReject relation are rejected",
+		Rule: "every spec A of U_2 as consumer x producers {a second instance of A; A rebuilt from its own description (both directions; map-based schemas); every single-feature mutation of A at any depth (range shifted out of reach, leaf kind, container kind, enum value, property added/removed, object id, discriminator, member removed, required flag, bound dropped, item type); a fixed set of ~70 unrelated specs incl. all nil/non-nil (min,max) combinations for int, float, string and map sizes with overlapping and disjoint ranges}; each ValidateCompatibility call runs under the sorted and under every single deviating map iteration order; oracle: a verdict is returned (panic / stack exhaustion / hang are violations), same verdict in every order, A accepts itself, and pairs in the reference MustReject relation are rejected",
 		Assumptions: []string{
 			"nothing is claimed about pairs outside MustReject and reflexivity",
 			"any as consumer or producer is never in MustReject; int/int-enum and string/string-enum share a base kind",
